@@ -24,7 +24,10 @@ THEOREMS = ["fasta_read_write", "fasta_rewrap_invariant", "fasta_file_lines", "f
             "reformat_namelen_ignored_elsewhere", "reformat_convert_keeps_shape",
             # round 3: esl-alimask / esl-alimanip = the tool's mask computation, then C15 ColumnSubset / SequenceSubset, then the C03 writer
             "alimask_is_column_subset", "alimask_truncate_is_slice", "alimanip_seq_subset_keeps_rows", "alimanip_seq_list_is_subset",
-            "alimanip_reorder_attached"]
+            "alimanip_reorder_attached",
+            # round 4: esl-afetch (sequential search, SSI lookup, verbatim echo of the record's span)
+            "afetch_sequential_returns_requested", "afetch_sequential_first_match", "afetch_indexed_returns_requested",
+            "afetch_indexed_name_before_accession", "afetch_echo_is_record_text"]
 
 SQFORMATS = ["fasta", "embl", "genbank", "uniprot", "ddbj", "daemon", "hmmpgmd", "ncbi", "fmindex"]
 MSAFORMATS = ["stockholm", "pfam", "a2m", "afa", "psiblast", "clustal", "clustallike", "selex", "phylip", "phylips"]
@@ -1177,6 +1180,66 @@ def ref_afetch(rng, i):
             "index_msg": "Working...    done.\nIndexed %d alignments (%d names).\nSSI index written to file in.sto.ssi\n" % (nali, nali)}
 
 
+def ref_afetch_exact(rng, i):
+    """esl-afetch --informat stockholm|pfam: by name, by accession, with / without an SSI index (verbatim echo of the record's
+    span vs. parse + write), --outformat, -o / -O, -f <keyfile>; records wider than one 200-column block, blank lines between
+    records (they belong to the NEXT record's span: msa->offset is taken before the read). Complete stdout / output file predicted."""
+    nali = rng.choice([1, 2, 3, 5])
+    pfam = rng.random() < 0.3
+    recs, text = [], ""
+    for k in range(nali):
+        rows, abc = wide_rows(rng, alen=rng.choice([None, None, 7, 30, 201, 260]))
+        alen = len(rows[0][1])
+        name = "%s%d" % (rng.choice(["aln", "fam_", "PF000", "tRNA.", "x"]), k + 1)
+        acc = ("%s%05d.%d" % (rng.choice(["PF", "RF", "AC"]), rng.randrange(100000), k + 1)) if rng.random() < 0.5 else None
+        rf = "".join("x" if rng.random() < 0.7 else "." for _ in range(alen)) if rng.random() < 0.3 else None
+        ss = balanced_ss(rng, alen) if rng.random() < 0.3 else None
+        cpl = alen if pfam else rng.choice([alen, 200, 200, 50, 77])
+        t = sto_text_blocks(rows, max(1, cpl), rf=rf, sscons=ss, desc=({0: "a description"} if rng.random() < 0.3 else None), ident=name)
+        if acc: t = t.replace("#=GF ID %s\n" % name, "#=GF ID %s\n#=GF AC %s\n" % (name, acc), 1)
+        if rng.random() < 0.3: t = t.replace("//\n", "  //\n")             # terminator indented, as the parser allows
+        text += t + "\n" * rng.choice([0, 0, 1, 3])
+        recs.append((name, acc))
+    infmt = "pfam" if pfam else "stockholm"
+    indexed = rng.random() < 0.5
+    if not indexed and nali > 1 and rng.random() < 0.25:
+        # the accession of an EARLIER record equals the name of a later one: the sequential search stops at the earlier record
+        a, b = sorted(rng.sample(range(nali), 2))
+        old = recs[a][1]
+        if old: text = text.replace("#=GF AC %s\n" % old, "#=GF AC %s\n" % recs[b][0], 1)
+        else: text = text.replace("#=GF ID %s\n" % recs[a][0], "#=GF ID %s\n#=GF AC %s\n" % (recs[a][0], recs[b][0]), 1)
+        recs[a] = (recs[a][0], recs[b][0])
+        forced_key = recs[b][0]
+    else:
+        forced_key = None
+    ops = [op_file("in.sto", text)]
+    if indexed:
+        ops.append(op_run("esl-afetch", ["--informat", infmt, "--index", "in.sto"]))
+    args = ["--informat", infmt]
+    w = rng.random()
+    if w < 0.35: args += ["--outformat", rng.choice(MSAFORMATS)]
+    elif w < 0.5: args += ["--outformat", infmt]
+    if rng.random() < 0.3:
+        keys = [rng.choice([x for x in r if x]) for r in recs if rng.random() < 0.6] or [recs[-1][0]]
+        rng.shuffle(keys)
+        kt = ""
+        for k_ in keys:
+            if rng.random() < 0.2: kt += rng.choice(["# a comment\n", "\n", "   \n", "  # indented comment\n"])
+            kt += rng.choice(["", "  ", "\t"]) + k_ + rng.choice(["", "", " trailing words", "\t# c"]) + "\n"
+        ops.append(op_file("keys", kt))
+        if rng.random() < 0.3:
+            ops += [op_run("esl-afetch", ["-o", "out.txt"] + args + ["-f", "in.sto", "keys"]), "cat name=out.txt"]
+        else:
+            ops.append(op_run("esl-afetch", args + ["-f", "in.sto", "keys"]))
+    else:
+        key = forced_key or rng.choice([x for x in rng.choice(recs) if x])
+        w = rng.random()
+        if w < 0.15: ops += [op_run("esl-afetch", ["-o", "out.txt"] + args + ["in.sto", key]), "cat name=out.txt"]
+        elif w < 0.3: ops += [op_run("esl-afetch", ["-O"] + args + ["in.sto", key]), "cat name=" + key]
+        else: ops.append(op_run("esl-afetch", args + ["in.sto", key]))
+    return {"name": "ref-afetchx-%d" % i, "ref": True, "sticky": 1, "ops": ops}
+
+
 def ref_weight(rng, i):
     rows, abc = ref_msa_rows(rng)
     if rng.random() < 0.15:
@@ -1839,7 +1902,7 @@ def sweep_cases(ctx):
     return out
 
 
-REF_GENERATORS = [("esl-reformat hmmpgmd", ref_hmmpgmd), ("esl-sfetch afa", ref_sfetch_afa), ("esl-alistat info", ref_alistat_info), ("small modes", ref_small), ("esl-afetch -f", ref_afetch_multi), ("esl-alimask", ref_alimask), ("esl-alimanip", ref_alimanip), ("easel index", ref_index), ("easel filter", ref_filter), ("esl-weight", ref_weight), ("esl-afetch", ref_afetch), ("roundtrip", ref_roundtrip), ("esl-alistat", ref_alistat), ("esl-translate", ref_translate), ("esl-sfetch", ref_sfetch), ("esl-seqstat", ref_seqstat), ("esl-alirev", ref_alirev), ("esl-alipid", ref_alipid),
+REF_GENERATORS = [("esl-afetch exact", ref_afetch_exact), ("esl-reformat hmmpgmd", ref_hmmpgmd), ("esl-sfetch afa", ref_sfetch_afa), ("esl-alistat info", ref_alistat_info), ("small modes", ref_small), ("esl-afetch -f", ref_afetch_multi), ("esl-alimask", ref_alimask), ("esl-alimanip", ref_alimanip), ("easel index", ref_index), ("easel filter", ref_filter), ("esl-weight", ref_weight), ("esl-afetch", ref_afetch), ("roundtrip", ref_roundtrip), ("esl-alistat", ref_alistat), ("esl-translate", ref_translate), ("esl-sfetch", ref_sfetch), ("esl-seqstat", ref_seqstat), ("esl-alirev", ref_alirev), ("esl-alipid", ref_alipid),
                   ("esl-seqrange", ref_seqrange), ("esl-selectn", ref_selectn), ("esl-mask", ref_mask),
                   ("esl-reformat", ref_reformat), ("esl-shuffle", ref_shuffle), ("easel downsample", ref_downsample)]
 
